@@ -101,13 +101,15 @@ def gen_pack(rng, world, flavour=None, allow_iterative=True):
         r = rng.random()
         if r < 0.45:
             u = dict(u, mask=_mask(rng, 0.15), lazy=lazy(), two_way=rng.random() < 0.7)
-            (inferral if rng.random() < 0.7 else initial).append(u)
             if u["t"] == "TrackLetter":
                 track_used = True
-            if rng.random() < 0.2:
-                # the same strategy again with the other declaration: the same (parent, child)
-                # key then arrives both as a one-way and as a two-way rule
-                initial.append(dict(u, two_way=not u["two_way"], mask=None, lazy=False))
+            if u["t"] != "TrackLetter" and rng.random() < 0.3:
+                # the same strategy twice with opposite declarations, both keeping the parent: the same
+                # (parent, child) key then arrives both as a one-way and as a two-way rule
+                initial.append(dict(u, ignore_parent=False))
+                initial.append(dict(u, two_way=not u["two_way"], mask=None, lazy=False, ignore_parent=False))
+            else:
+                (inferral if rng.random() < 0.7 else initial).append(u)
     rng.shuffle(inferral)
     exp_mask = _mask(rng, 0.35)
     r = rng.random()
